@@ -122,7 +122,14 @@ class PublicKeyX509(PublicKeyX509Base):
             # whatever asn1crypto raises for a structure that is not a well-formed certificate
             six.raise_from(InvalidValue(bytes(der), cls, 'certificate'), e)
 
-        return cls.from_der(bytes(der))
+        certificate = cls.from_der(bytes(der))
+        try:
+            # ... and must be describable: the data hub does not know every algorithm identifier
+            certificate._asdict()  # pylint: disable=protected-access
+        except (InvalidValue, ValueError, TypeError, KeyError, IndexError, AttributeError, OverflowError) as e:
+            six.raise_from(InvalidValue(bytes(der), cls, 'certificate'), e)
+
+        return certificate
 
     @property
     def signed_certificate_timestamps(self):
